@@ -164,6 +164,16 @@ def run_case(case, tier):
     else:
         recs, _ = sources.chimera(rng)
     recs = sources.no_hydrogens(recs)
+    if case["kind"] == "built" and rng.random() < 0.2:
+        # an incomplete residue (a carboxylate without its oxygens, an amide without N, a ring without its
+        # nitrogens): whatever stands in for the missing atoms must move with the structure
+        cands = sorted({(r.chain, r.resnum, r.icode) for r in recs if r.raw is None and r.resn in ("ASP", "GLU", "ASN", "GLN", "HIS", "ARG", "TYR")})
+        if cands:
+            kill = rng.choice(cands)
+            names = {"ASP": ("OD1", "OD2"), "GLU": ("OE1", "OE2"), "ASN": ("ND2",), "GLN": ("NE2",), "HIS": ("ND1", "CE1", "NE2"),
+                     "ARG": ("NH1", "NH2"), "TYR": ("OH",)}
+            recs = [r for r in recs if r.raw is not None or (r.chain, r.resnum, r.icode) != kill or r.aname() not in names.get(r.resn, ())]
+            classes.append("incomplete-residue")
     rot, trans, tkind, moved = motion.random_pose(rng, recs)
     back_key, inv, tinv = motion.key_mapper(rot, trans)
     back_xyz = motion.float_back(rot, trans)
